@@ -56,6 +56,36 @@ CLAIMS = {
         'mode weight 1 on kz=0 and 2kz=n else 2 for counts and all weighted sums alike, per-thread int64 accumulators reduced after the loop, guarded means, monopole = mode-weighted mu-average, loops cover the half mesh once.',
    note='Assumed: mu^2 <= 1 <= muedges[-1] (docstring). Not decided: membership of modes lying exactly on an edge (float32), Legendre closed form P_n, values of the means.',
    design_ref='DESIGN.md section 4, C08'),
+ 'C12': dict(
+   technique='static analysis: computed set of per-halo arrays (allocation dimension + flow into halo_data) compared with the set permuted in the re-sort branch; slab-slice agreement; ordering rules',
+   text='Decides that concatenation and re-sorting treat every per-halo array alike for every file layout and flag combination: every array allocated per halo that reaches halo_data is permuted by the argsort of the ids under the flags of its allocation, '
+        'all per-halo / per-particle arrays are filled through one slab slice with the ticker advanced once after the stores, sortedness is asserted after the re-sort and pinds is the sorted search of phid in the re-sorted hid.',
+   note='Precondition (not decided): ids duplicate-free and present; HDF5 contents.',
+   design_ref='DESIGN.md section 4, C12'),
+ 'C14': dict(
+   technique='static analysis: pairing / must-follow rules on the structured control flow of the frame reassembly loop, struct-format agreement by constant folding',
+   text='Decides the pairing conditions necessary for chunk independence on every path: one length-prefix format in writer and reader with matching literal header lengths, every prefix read consumed by the same amount, '
+        'every decompressed frame advances the output cursor and resets the frame state, the buffer cursor is bounded by min(frame remainder, chunk), parser state is per call, the writer tiles the data with one header per frame.',
+   note='That these conditions imply chunk independence (a history property) is a hand argument in DESIGN.md; blosc itself is not modelled.',
+   design_ref='DESIGN.md section 4, C14'),
+ 'C16': dict(
+   technique='static analysis: key agreement between membership tests and column names, evaluation of branch conditions on the literal raw column names, must-raise and plumbing rules',
+   text='Decides the column-set and plumbing clauses: each column is added iff its own name is in the resolved load list (PID fields via the kwargs comprehension over what unpack_pids accepts), defaults per raw column as documented, '
+        'auto-detection raises for zero or several known columns, each raw column selects exactly one decode branch which writes into the table buffers with the requested dtype and defines the truncation count; meta is the header.',
+   note='Value independence from co-requested columns is C04-R6/C15-R5. asdf/astropy behaviour and file contents are not modelled.',
+   design_ref='DESIGN.md section 4, C16'),
+ 'C18': dict(
+   technique='static analysis: floor-division normal forms of the code decomposition, extraction and comparison of the 12-cap signed-permutation table, structural orthogonality / Levi-Civita rules',
+   text='Decides the algebraic structure of _unpack_euler16 for all 65340 codes: cap/cell/azimuth decomposition with A=45, T=11; every cap maps the unit vector to a signed permutation with the dominant component on axis cap//4 and the 12 permutations are distinct; '
+        'minor is perpendicular to major by construction (third component solved through the dominant one); middle = minor x major; all normalised.',
+   note='Not decided: distinctness within a cap (injectivity of the real-valued cell map) and the 4-degree angular coverage, which are numerical.',
+   design_ref='DESIGN.md section 4, C18'),
+ 'C20': dict(
+   technique='static analysis: statement-order (dominance) rule for validate-before-write, frame-grammar matching of the write sequence, reader/writer width agreement (C client parsed by regex)',
+   text='Decides the framing: no write is reachable before validation of all files x fields; per field the writes are exactly an int64 count accumulating prod(shape) over the files, an int32 itemsize, then one payload per file in argument order; '
+        'no reordering of files/fields, CLI forwards them in order; widths agree with client.c and the documented 8-byte / 4-byte ints.',
+   note='The payload bytes delivered by asdf/blosc are not modelled.',
+   design_ref='DESIGN.md section 4, C20'),
 }
 _NB = 'rule family not built yet in this session (claimed only once its checker exists; see DESIGN.md section 4)'
 NOT_APPLICABLE = {f'C{n:02d}': _NB for n in range(1, 21) if f'C{n:02d}' not in CLAIMS}
